@@ -217,6 +217,9 @@ func ruleC12b(c *Ctx) {
 	li := p.lockInfo()
 	for _, call := range selectRouteInvokes(p) {
 		fn := call.Parent()
+		if delegatingSelector(p, topFunc(fn)) {
+			continue // a wrapper hands on the list it was given; the caller's critical section is what counts
+		}
 		name := p.fname(fn)
 		arg := strip(call.Call.Args[0])
 		// a list nobody can change under the router's feet: a copy made for the purpose, a snapshot field that is kept
